@@ -52,12 +52,23 @@ def check_exactly_once(ctx):
     out = []
     n_eval = 0
     bad = None
+    # element values: the stream may carry ANY value, also the ones a careless
+    # end-of-input test could mistake for "nothing" (None, 0, '', (), False)
+    falsy = [None, 0, "", (), False, 0.0, b""]
     for n, b in _cases(ctx, big):
         n_eval += 1
         src = Src(range(n))
         got = list(shuffle_buffer(src, b))
         if collections.Counter(got) != collections.Counter(range(n)):
             bad = {"n": n, "buffer_size": b, "got": got[:50]}
+            break
+        vals = [falsy[i % len(falsy)] if i % 3 == 1 else i for i in range(n)]
+        got = list(shuffle_buffer(Src(vals), b))
+        if collections.Counter(map(repr, got)) != \
+                collections.Counter(map(repr, vals)):
+            bad = {"n": n, "buffer_size": b, "values": "with None / 0 / '' / ()",
+                   "got": [repr(x) for x in got[:30]],
+                   "expected_len": len(vals), "got_len": len(got)}
             break
         # a failing source must propagate
         if n:
@@ -83,6 +94,14 @@ def check_exactly_once(ctx):
         exp = [t for l in inner for t in l]
         if collections.Counter(got) != collections.Counter(exp):
             bad = {"lens": lens, "buffer_size": b, "got": got[:50]}
+            break
+        inner2 = [[None if (j + p) % 2 else 0 for p in range(lens[j])]
+                  for j in range(n)]
+        got = list(round_robin(Src(inner2), b))
+        if len(got) != sum(lens) or collections.Counter(map(repr, got)) != \
+                collections.Counter(repr(t) for l in inner2 for t in l):
+            bad = {"lens": lens, "buffer_size": b,
+                   "values": "None / 0 elements", "got_len": len(got)}
             break
     out.append({"check": "round_robin exactly-once (tokens)",
                 "function": "round_robin", "ok": bad is None,
